@@ -151,11 +151,17 @@ theorem lookupColl_lt {s : Store} {e : EntId} {vals : List (Attr × Val)} (hok :
       simp only at h
       exact valsOk_mem hok a' _ hm x h
 
+/-- `x` is one of the objects passed to the constructor call -/
+def IsVal (vals : List (Attr × Val)) (x : ObjId) : Prop := ∃ a, lookupRef vals a = some x ∨ x ∈ lookupColl vals a
+
 /-- `Entity.__init__` -/
 theorem create_ok {fuel : Nat} {e : EntId} {vals : List (Attr × Val)} {st st' : St}
     (h : create sch fuel e vals st = .ok st') (hvals : valsOk sch st.store e vals = none)
     (hA : Agree sch st.store) (hR : Range st.store) :
-    Agree sch st'.store ∧ Range st'.store := by
+    Agree sch st'.store ∧ Range st'.store ∧ st'.store.n = st.store.n + 1 ∧
+      (∀ p, p < st.store.n → st'.store.ent p = st.store.ent p) ∧
+      (∀ p b q, hasB sch st'.store p b q = true → hasB sch st.store p b q = true ∧ p ≠ st.store.n ∨
+        (p = st.store.n ∧ IsVal vals q) ∨ (q = st.store.n ∧ IsVal vals p)) := by
   unfold create at h
   simp only at h
   split at h
@@ -173,19 +179,21 @@ theorem create_ok {fuel : Nat} {e : EntId} {vals : List (Attr × Val)} {st st' :
               updateReverse sch fuel d rd st.store.n a none (lookupRef vals a) (st1.setStore (st1.store.setRef st.store.n a (lookupRef vals a)))
             else setCollCore sch (fun x => delete sch fuel x) true st.store.n a (lookupColl vals a) st1
           | _, _ => .err .noSuchAttr st1) rest s1 = .ok s2 →
-        Agree sch s2.store ∧ Range s2.store := by
+        Agree sch s2.store ∧ Range s2.store ∧ s2.store.n = st.store.n + 1 ∧ s2.store.ent = s1.store.ent ∧
+          (∀ p b q, hasB sch s2.store p b q = true → hasB sch s1.store p b q = true ∨
+            (p = st.store.n ∧ IsVal vals q) ∨ (q = st.store.n ∧ IsVal vals p)) := by
       intro rest
       induction rest with
-      | nil => intro s1 s2 _ _ hA' hR' _ _ hi; simp at hi; cases hi; exact ⟨hA', hR'⟩
+      | nil => intro s1 s2 _ _ hA' hR' hn _ hi; simp at hi; cases hi; exact ⟨hA', hR', hn, rfl, fun _ _ _ h => Or.inl h⟩
       | cons a rest ih =>
         intro s1 s2 hnd hsub hA' hR' hn hfresh hi
         obtain ⟨s1', hstep, hrest⟩ := iter_cons_ok hi
         have hnd' := (List.nodup_cons.mp hnd)
         have hid : st.store.n < s1.store.n := by rw [hn]; exact Nat.lt_succ_self _
         -- one attribute
-        have hone : Agree sch s1'.store ∧ Range s1'.store ∧ s1'.store.n = s1.store.n ∧
+        have hone : Agree sch s1'.store ∧ Range s1'.store ∧ s1'.store.n = s1.store.n ∧ s1'.store.ent = s1.store.ent ∧
             (∀ p b q, hasB sch s1'.store p b q = true → hasB sch s1.store p b q = true ∨
-              (p = st.store.n ∧ b = a ∧ q < st.store.n) ∨ (q = st.store.n ∧ b = sch.rev a ∧ p < st.store.n)) := by
+              (p = st.store.n ∧ b = a ∧ q < st.store.n ∧ IsVal vals q) ∨ (q = st.store.n ∧ b = sch.rev a ∧ p < st.store.n ∧ IsVal vals p)) := by
           split at hstep
           · rename_i d rd hd hrd
             split at hstep
@@ -208,43 +216,67 @@ theorem create_ok {fuel : Nat} {e : EntId} {vals : List (Attr × Val)} {st st' :
                   unfold updateReverse at hstep
                   split at hstep <;> simp [Res.bind] at hstep <;> exact hstep.symm
                 rw [this]
-                exact ⟨hA', hR', rfl, fun p b q hh => Or.inl hh⟩
+                exact ⟨hA', hR', rfl, rfl, fun p b q hh => Or.inl hh⟩
               | some x =>
                 rw [hv] at hstep
                 have hx := lookupRef_lt hvals a x hv
-                obtain ⟨g1, g2, g3, g4⟩ := updateReverse_ok (s0 := s1.store) hdel hstep hd hcoll' hrd rfl hcell.symm
+                obtain ⟨g1, g2, g3, ge, g4⟩ := updateReverse_ok (s0 := s1.store) hdel hstep hd hcoll' hrd rfl hcell.symm
                   (by rw [hcell]; simp) hid (fun hc => absurd hcell hc) (fun y hy => by cases hy; rw [hn]; exact Nat.lt_succ_of_lt hx) hA' hR'
-                refine ⟨g1, g2, g3, ?_⟩
+                refine ⟨g1, g2, g3, ge, ?_⟩
                 intro p b q hh
                 rcases g4 p b q hh with h' | ⟨h1, h2, h3⟩ | ⟨h1, h2, h3⟩
                 · exact Or.inl h'
-                · cases h3; exact Or.inr (Or.inl ⟨h1, h2, hx⟩)
-                · cases h3; exact Or.inr (Or.inr ⟨h1, h2, hx⟩)
+                · cases h3; exact Or.inr (Or.inl ⟨h1, h2, hx, a, Or.inl hv⟩)
+                · cases h3; exact Or.inr (Or.inr ⟨h1, h2, hx, a, Or.inl hv⟩)
             · rename_i hcoll
               have hcoll' : d.isColl = true := by simpa using hcoll
               have hit := lookupColl_lt hvals a
-              obtain ⟨g1, g2, g3, g4⟩ := setCollCore_ok hdel hstep hd hcoll' hid (fun y hy => by rw [hn]; exact Nat.lt_succ_of_lt (hit y hy)) hA' hR'
-              refine ⟨g1, g2, g3, ?_⟩
+              obtain ⟨g1, g2, g3, ge, g4⟩ := setCollCore_ok hdel hstep hd hcoll' hid (fun y hy => by rw [hn]; exact Nat.lt_succ_of_lt (hit y hy)) hA' hR'
+              refine ⟨g1, g2, g3, ge, ?_⟩
               intro p b q hh
               rcases g4 p b q hh with h' | ⟨h1, h2, h3⟩ | ⟨h1, h2, h3⟩
               · exact Or.inl h'
-              · exact Or.inr (Or.inl ⟨h1, h2, hit q h3⟩)
-              · exact Or.inr (Or.inr ⟨h1, h2, hit p h3⟩)
+              · exact Or.inr (Or.inl ⟨h1, h2, hit q h3, a, Or.inr h3⟩)
+              · exact Or.inr (Or.inr ⟨h1, h2, hit p h3, a, Or.inr h3⟩)
           · cases hstep
-        obtain ⟨g1, g2, g3, g4⟩ := hone
-        apply ih s1' s2 hnd'.2 (fun a' ha' => hsub a' (by simp [ha'])) g1 g2 (by rw [g3, hn]) _ hrest
-        intro a' ha' y
-        cases hh : hasB sch s1'.store st.store.n a' y with
-        | false => rfl
-        | true =>
-          rcases g4 _ _ _ hh with h' | ⟨_, h2, _⟩ | ⟨h1, _, h3⟩
-          · rw [hfresh a' (by simp [ha']) y] at h'; cases h'
-          · rw [h2] at ha'; exact absurd ha' hnd'.1
-          · exact absurd h3 (Nat.lt_irrefl _)
-    refine key _ _ st' (attrsOf_nodup sch e) (fun a ha => ha) hA1 hR1 (by simp [Store.alloc]) ?_ h
-    intro a _ y
-    simp only [St.log_store, St.setStore_store]
-    rw [hasB_alloc]; simp
+        obtain ⟨g1, g2, g3, ge, g4⟩ := hone
+        have hfresh' : ∀ a' ∈ rest, ∀ y, hasB sch s1'.store st.store.n a' y = false := by
+          intro a' ha' y
+          cases hh : hasB sch s1'.store st.store.n a' y with
+          | false => rfl
+          | true =>
+            rcases g4 _ _ _ hh with h' | ⟨_, h2, _⟩ | ⟨h1, _, h3, _⟩
+            · rw [hfresh a' (by simp [ha']) y] at h'; cases h'
+            · rw [h2] at ha'; exact absurd ha' hnd'.1
+            · exact absurd h3 (Nat.lt_irrefl _)
+        obtain ⟨r1, r2, r3, re, r4⟩ := ih s1' s2 hnd'.2 (fun a' ha' => hsub a' (by simp [ha'])) g1 g2 (by rw [g3, hn]) hfresh' hrest
+        refine ⟨r1, r2, r3, re.trans ge, ?_⟩
+        intro p b q hh
+        rcases r4 p b q hh with h' | h' | h'
+        · rcases g4 p b q h' with h'' | ⟨h1, _, _, h4⟩ | ⟨h1, _, _, h4⟩
+          · exact Or.inl h''
+          · exact Or.inr (Or.inl ⟨h1, h4⟩)
+          · exact Or.inr (Or.inr ⟨h1, h4⟩)
+        · exact Or.inr (Or.inl h')
+        · exact Or.inr (Or.inr h')
+    obtain ⟨k1, k2, k3, ke, k4⟩ := key _ _ st' (attrsOf_nodup sch e) (fun a ha => ha) hA1 hR1 (by simp [Store.alloc]) (by
+      intro a _ y
+      simp only [St.log_store, St.setStore_store]
+      rw [hasB_alloc]; simp) h
+    refine ⟨k1, k2, k3, ?_, ?_⟩
+    · intro p hp
+      rw [ke]
+      show (if p = st.store.n then e else st.store.ent p) = st.store.ent p
+      exact if_neg (Nat.ne_of_lt hp)
+    intro p b q hh
+    rcases k4 p b q hh with h' | h' | h'
+    · simp only [St.log_store, St.setStore_store] at h'
+      rw [hasB_alloc] at h'
+      split at h'
+      · cases h'
+      · rename_i hpn; exact Or.inl ⟨h', hpn⟩
+    · exact Or.inr (Or.inl h')
+    · exact Or.inr (Or.inr h')
 
 end create
 end PonyVerif.Model.Rel
